@@ -419,6 +419,9 @@ func rulesC06(w *World, r *Report) {
 		r.Check(ok, "C06.R6", "putPointAt", w.pos(pp.Pos()), "writes the encoded point at the given offset", "putPointAt does not write Point.AppendTo's bytes at the offset it was given")
 	}
 	ruleC05R5SizeOnly(w, r)
+	// reading reference-written files as the reference does needs the exact-interval stale-lap filter; every file a command leaves behind must have its header on disk
+	ruleStaleFilter(w, r, "C01.R2")
+	ruleC05R7(w, r, "C05.R7")
 }
 
 // ruleC05R5SizeOnly re-uses the creation-time length check for C06.
